@@ -12,8 +12,8 @@ CHECKS = {
          "curve lawfulness assumed for the concrete curves; Paillier/ring-Pedersen arrays are compared across parties by direct assertion"),
  "C04": ("Lean theorems: resharing preserves the secret and the public key, the V_0 = PK check is sound for arbitrary old-committee input, chains preserve the key; the two-committee round engine (Engine2, resharing tables of both curves): over every reachable state of the closed old+new system (any order, duplicates, pre-Start) no old member ends and no new member saves before every new member has acknowledged, an acknowledgement follows all shares, a cut run leaves every old member intact, schedule independence, pre-Start = post-Start, no deadlock; the same ordering is asserted after EVERY delivery of every run (every prefix is a cut point); the new member's share-side checks (BlameRs: every announcement compared, de-commitment, share check, V_0 = y) proved for any curve; tie = whole resharing runs (both curves, proofs on/off, pre-Start, one slow packet per message type, chains, sign-after) with every member's engine trace compared with Engine2, and tampered / shifted-key runs of both curves re-judged per new member by BlameRs",
          "the cryptographic bodies of the resharing rounds are the C03/C10-C15 models plus run-level assertions; ECDSA resharing verifies the new members' factorisation proofs after the acknowledgements (R1, see DESIGN.md)"),
- "C05": ("Lean theorems about the round-level blame models (EdDSA keygen round 3, EdDSA signing round 3, ECDSA keygen rounds 2 and 3, the parameter part of an ECDSA new member's resharing round 4; ECDSA signing rounds 2, 3, 5, 7, 9 — Props/C05d, C05e; the fac-proof check of ECDSA resharing round 5 — Props/C05f): exactly the failing peers are named, never the party itself or a peer that sent nothing; an altered value covered by the commitment, the Schnorr proof or the Feldman check is blamed; honest peers pass (from C10/C15/C16), hence a single deviator is named exactly; the rounds return; accepted shares are consistent; plus the no-bad-output facts of C01/C03/C16; tie = fault injection over all six protocols (one alteration per message field found by protobuf reflection, every position, whole-message replay, acknowledgement forgery in resharing) in child processes, with every modelled round re-judged by the model from the delivered fields (kg_round3, sg_round3, ec_kg_round2/3, ec_rs_round4_params, ec_sg_round2/3/5/7/9)",
-         "of the ECDSA rounds, key generation rounds 2-3, signing rounds 2, 3, 5, 7, 9 and the parameter part of resharing round 4 are modelled as round functions up to the culprit decision (all verifiers are): for the others (signing finalize, the share side of ECDSA resharing is BlameRs) blame and output validity are direct assertions on injected runs; ONE KNOWN FINDING (KNOWN_FINDINGS.txt): in ECDSA resharing a new member's bad no-small-factor proof is detected only in round 5, after the old committee has erased (key loss for the honest parties); the check prints KNOWN-FINDING for exactly those two failure keys; in signing rounds 2-3 the Go error lists a peer once per failed step, the model once (compared as sets); soundness against adaptive provers is cryptographic and not claimed; after a party has reported an error the caller must stop feeding it messages (the library does not latch failures)"),
+ "C05": ("Lean theorems about the round-level blame models (EdDSA keygen round 3, EdDSA signing round 3, ECDSA keygen rounds 2, 3 and 4, the parameter part of an ECDSA new member's resharing round 4; ECDSA signing rounds 2, 3, 5, 7, 9 — Props/C05d, C05e; the fac-proof check of ECDSA resharing round 5 — Props/C05f): exactly the failing peers are named, never the party itself or a peer that sent nothing; an altered value covered by the commitment, the Schnorr proof or the Feldman check is blamed; honest peers pass (from C10/C15/C16), hence a single deviator is named exactly; the rounds return; accepted shares are consistent; plus the no-bad-output facts of C01/C03/C16; tie = fault injection over all six protocols (one alteration per message field found by protobuf reflection, every position, whole-message replay, acknowledgement forgery in resharing) in child processes, with every modelled round re-judged by the model from the delivered fields (kg_round3, sg_round3, ec_kg_round2/3/4, ec_rs_round4_params, ec_rs_round5_fac, ec_sg_round2/3/5/7/9)",
+         "of the ECDSA rounds, key generation rounds 2-4, signing rounds 2, 3, 5, 7, 9 and the parameter part of resharing round 4 are modelled as round functions up to the culprit decision (all verifiers are): for the others (signing finalize, the share side of ECDSA resharing is BlameRs) blame and output validity are direct assertions on injected runs; ONE KNOWN FINDING (KNOWN_FINDINGS.txt): in ECDSA resharing a new member's bad no-small-factor proof is detected only in round 5, after the old committee has erased (key loss for the honest parties); the check prints KNOWN-FINDING for exactly those two failure keys; in signing rounds 2-3 the Go error lists a peer once per failed step, the model once (compared as sets); soundness against adaptive provers is cryptographic and not claimed; after a party has reported an error the caller must stop feeding it messages (the library does not latch failures)"),
  "C06": ("Lean theorems that every modelled verifier/decoder returns (never `panic`) for all field values, with pre-fix crash witnesses, and the modelled round bodies return; model tied to the Go verifiers by verdict agreement on boundary grids over every field of every proof system; protocol level: boundary values in every message field and junk (random/bit-flipped/truncated bytes, wrong/out-of-range/unknown senders, flipped flags, foreign messages) through UpdateFromBytes in whole runs of all six protocols, in child processes under watchdogs, also with a single verifier worker",
          "the wire codec (protobuf) is not modelled: for undecodable bytes the only oracle is 'returns, process alive'; hangs are detected by watchdogs (runtime observation)"),
  "C07": ("Lean theorems about the round-engine model for every table: fixpoint after each update, local confluence, idempotent duplicates, schedule independence up to permutation and duplication, pre-Start = post-Start delivery, ends exactly once, and no_deadlock for the closed n-party system (all-to-all, disciplined tables; hypotheses decided for the four library tables); tie = the behaviour of every party after each event of whole runs under 9 delivery strategies, one slow packet per message type and exhaustive interleavings (EdDSA n=2) equals the model's trace; resharing runs with one slow packet per message type against Engine2",
